@@ -107,20 +107,20 @@ Qed.
 (* write_zeroes on one value of a type that needs drop: the old value's destructor runs once, the value is
    left all-zero whether or not that destructor panicked, the call unwinds iff it did.
    Proof: the statements are concrete; evaluation leaves only the destructor oracle's answer open. *)
-Theorem gen_write_zeroes panics s d :
-  Gen.Zero.write_zeroes panics true (VPtr 0) (mkZmem [cell_of s] d Running) =
+Theorem gen_write_zeroes panics zsz s d :
+  Gen.Zero.write_zeroes panics true zsz (VPtr 0) (mkZmem [cell_of s] d Running) =
   let '(s', dd, p) := write_zeroes panics s in mkZmem [cell_of s'] (d ++ dd) (status_of p).
 Proof.
-  destruct s as [id|]; vm_compute.
-  - destruct (panics id); reflexivity.
-  - (* an all-zero value: d ++ [] *)
-    f_equal. induction d as [|x d IH]; [reflexivity | f_equal; exact IH].
+  destruct s as [id|]; destruct zsz; vm_compute.
+  1, 2: destruct (panics id); reflexivity.
+  (* an all-zero value: d ++ [] *)
+  all: f_equal; induction d as [|x d IH]; [reflexivity | f_equal; exact IH].
 Qed.
 
 (* a type that does not need drop: no destructor, the value is zeroed *)
-Theorem gen_write_zeroes_nodrop panics c d :
-  Gen.Zero.write_zeroes panics false (VPtr 0) (mkZmem [c] d Running) = mkZmem [CZero] d Running.
-Proof. vm_compute. reflexivity. Qed.
+Theorem gen_write_zeroes_nodrop panics zsz c d :
+  Gen.Zero.write_zeroes panics false zsz (VPtr 0) (mkZmem [c] d Running) = mkZmem [CZero] d Running.
+Proof. destruct zsz; vm_compute; reflexivity. Qed.
 
 Definition mem_of_run (r : zrun) : zmem := mkZmem (map cell_of (z_slots r)) (z_dropped r) (status_of (z_panicked r)).
 
@@ -130,8 +130,8 @@ Ltac run_stmts :=
     change (L' = R)
   end.
 
-Theorem gen_fill_zeroes_drop panics l :
-  Gen.Zero.fill_zeroes panics true (VSlice 0 (List.length l)) (mkZmem (map cell_of l) [] Running) =
+Theorem gen_fill_zeroes_drop panics zsz l :
+  Gen.Zero.fill_zeroes panics true zsz (VSlice 0 (List.length l)) (mkZmem (map cell_of l) [] Running) =
   mem_of_run (fill_zeroes_drop panics l).
 Proof.
   run_stmts.
@@ -151,8 +151,8 @@ Proof.
   f_equal. induction l as [|s r IH]; [reflexivity|]. cbn. f_equal. exact IH.
 Qed.
 
-Theorem gen_fill_zeroes_nodrop panics l :
-  Gen.Zero.fill_zeroes panics false (VSlice 0 (List.length l)) (mkZmem (map cell_of l) [] Running) =
+Theorem gen_fill_zeroes_nodrop panics zsz l :
+  Gen.Zero.fill_zeroes panics false zsz (VSlice 0 (List.length l)) (mkZmem (map cell_of l) [] Running) =
   mem_of_run (fill_zeroes_nodrop l).
 Proof.
   run_stmts.
@@ -163,8 +163,8 @@ Qed.
 (* end to end, on live values: with j the position of the first destructor that panics (if any), the
    translated fill_zeroes leaves cells 0..j all-zero (the one whose destructor panicked included), the cells
    after j untouched, has run the destructors of 0..j once each in order, and unwinds iff there is such a j *)
-Theorem gen_fill_zeroes_spec panics ids :
-  let m := Gen.Zero.fill_zeroes panics true (VSlice 0 (List.length ids)) (mkZmem (map COld ids) [] Running) in
+Theorem gen_fill_zeroes_spec panics zsz ids :
+  let m := Gen.Zero.fill_zeroes panics true zsz (VSlice 0 (List.length ids)) (mkZmem (map COld ids) [] Running) in
   match first_panic panics ids with
   | Some j => cells m = repeat CZero (S j) ++ map COld (skipn (S j) ids) /\
               dropped m = firstn (S j) ids /\ status m = Unwinding
@@ -172,7 +172,7 @@ Theorem gen_fill_zeroes_spec panics ids :
   end.
 Proof.
   cbn zeta.
-  pose proof (gen_fill_zeroes_drop panics (map Old ids)) as G.
+  pose proof (gen_fill_zeroes_drop panics zsz (map Old ids)) as G.
   rewrite map_map, map_length in G. cbn [cell_of] in G.
   change (map (fun x : nat => COld x) ids) with (map COld ids) in G.
   rewrite G. unfold mem_of_run. cbn [cells dropped status].
